@@ -655,8 +655,13 @@ func GVSx(g *GV) *spec.Sx {
 		return l
 	case "st":
 		l := spec.L(spec.A("st"))
-		for i, e := range g.Elems {
-			l.Add(spec.L(spec.Q(g.Keys[i]), GVSx(e)))
+		idx := make([]int, len(g.Elems))
+		for i := range idx {
+			idx[i] = i
+		}
+		sort.Slice(idx, func(a, b int) bool { return g.Keys[idx[a]] < g.Keys[idx[b]] })
+		for _, i := range idx {
+			l.Add(spec.L(spec.Q(g.Keys[i]), GVSx(g.Elems[i])))
 		}
 		return l
 	case "o":
